@@ -496,24 +496,40 @@ class Accept:
         """
 
         if isinstance(offer, AcceptOffer):
-            return offer
-        match = cls.media_type_compiled_re.match(offer)
+            # A pre-parsed offer is held to the same rules as its text form:
+            # token components, no parameter named "q", no wildcards, and
+            # case-insensitive type, subtype and parameter names.
+            offer_type, offer_subtype, offer_params = offer
+            names = [name for name, _value in offer_params]
 
-        if not match:
-            raise ValueError("Invalid value for an Accept offer.")
+            if not all(
+                token_compiled_re.fullmatch(token)
+                for token in [offer_type, offer_subtype] + names
+            ) or any(name in ("q", "Q") for name in names):
+                raise ValueError("Invalid value for an Accept offer.")
+        else:
+            match = cls.media_type_compiled_re.match(offer)
 
-        groups = match.groups()
-        offer_type, offer_subtype = groups[0].split("/")
-        offer_params = cls._parse_media_type_params(media_type_params_segment=groups[1])
+            if not match:
+                raise ValueError("Invalid value for an Accept offer.")
+
+            groups = match.groups()
+            offer_type, offer_subtype = groups[0].split("/")
+            offer_params = cls._parse_media_type_params(
+                media_type_params_segment=groups[1]
+            )
 
         if offer_type == "*" or offer_subtype == "*":
             raise ValueError("Invalid value for an Accept offer.")
 
-        return AcceptOffer(
+        parsed_offer = AcceptOffer(
             offer_type.lower(),
             offer_subtype.lower(),
             tuple((name.lower(), value) for name, value in offer_params),
         )
+
+        # an offer that is already in normal form is returned as it is
+        return offer if parsed_offer == offer else parsed_offer
 
     @classmethod
     def _parse_and_normalize_offers(cls, offers):
